@@ -454,15 +454,17 @@ func (h *Hub) topicUnreg(sess *Session, topic string, msg *ClientComMessage, rea
 				return err
 			}
 
-			tcat := topicCat(topic)
 			if len(subs) == 0 {
-				if tcat == types.TopicCatP2P {
+				// The name may be anything the client sent: topicCat panics on unknown names.
+				if strings.HasPrefix(topic, "p2p") {
 					// No subscribers: delete.
 					store.Topics.Delete(topic, false, true)
 				}
 				sess.queueOut(InfoNoActionReply(msg, now))
 				return nil
 			}
+			// Subscriptions exist, the topic name is valid.
+			tcat := topicCat(topic)
 
 			// Find subscription of the current user.
 			var sub *types.Subscription
